@@ -16,18 +16,21 @@ Definition placement (p : cpart) (all comp : list cpoint) (T : cpoint -> cpoint)
     T = (fun c => fp_translate (f32_sub (cp_x a) (cp_x b)) (f32_sub (cp_y a) (cp_y b)) (base_map p c))
   else T = base_map p.
 
-(* [assembled rc parts all ph all' ph']: starting from the collected points [all] and phantom points [ph], the component
-   list [parts] yields [all'] and [ph'].  [rc g] is the decoding of glyph g one level down (its points followed by its four
-   phantom points, or fewer than four points when the component is skipped: out of range or nested too deeply). *)
-Inductive assembled (rc : Z -> res (list cpoint)) : list cpart -> list cpoint -> list cpoint -> list cpoint -> list cpoint -> Prop :=
-| as_nil all ph : assembled rc [] all ph all ph
-| as_skip p r all ph all' ph' comp :
-    rc (p_gid p) = Ok comp -> zlen comp < 4 ->
-    assembled rc r all ph all' ph' -> assembled rc (p :: r) all ph all' ph'
-| as_part p r all ph all' ph' comp T :
-    rc (p_gid p) = Ok comp -> 4 <= zlen comp -> placement p all comp T ->
-    assembled rc r (all ++ map T (drop_last4 comp)) (if part_use_my_metrics p then last4 comp else ph) all' ph' ->
-    assembled rc (p :: r) all ph all' ph'.
+(* [assembled rc parts all ph ec all' ph' ec']: starting from the collected points [all], phantom points [ph] and the count
+   [ec] of glyphs visited so far, the component list [parts] yields [all'], [ph'] and the count [ec'].  [rc g c] is the
+   decoding of glyph g one level down when c glyphs have been visited (its points followed by its four phantom points, or
+   fewer than four points when the component is skipped: out of range, nested too deeply, or the budget of 1024 visited
+   glyphs is used up) together with the new count. *)
+Inductive assembled (rc : Z -> Z -> res (list cpoint * Z)) :
+    list cpart -> list cpoint -> list cpoint -> Z -> list cpoint -> list cpoint -> Z -> Prop :=
+| as_nil all ph ec : assembled rc [] all ph ec all ph ec
+| as_skip p r all ph ec all' ph' ec' comp ec1 :
+    rc (p_gid p) ec = Ok (comp, ec1) -> zlen comp < 4 ->
+    assembled rc r all ph ec1 all' ph' ec' -> assembled rc (p :: r) all ph ec all' ph' ec'
+| as_part p r all ph ec all' ph' ec' comp ec1 T :
+    rc (p_gid p) ec = Ok (comp, ec1) -> 4 <= zlen comp -> placement p all comp T ->
+    assembled rc r (all ++ map T (drop_last4 comp)) (if part_use_my_metrics p then last4 comp else ph) ec1 all' ph' ec' ->
+    assembled rc (p :: r) all ph ec all' ph' ec'.
 
 (* a point list made of complete contours: empty, or its last point is an end point *)
 Definition complete (pts : list cpoint) : Prop := pts = [] \/ cp_end (last pts fp_zero) = true.
